@@ -14,6 +14,7 @@ import (
 	"fmt"
 	"math/big"
 	"math/rand"
+	neturl "net/url"
 	"os"
 	"reflect"
 	"sort"
@@ -356,6 +357,9 @@ func (w *docWorld) build(d dDoc) (*jsonapi.Document, *jsonapi.URL, []jsonapi.Res
 	raw := "/t1"
 	if d.Kind == "one" || d.Kind == "ident" {
 		raw = "/t1/x"
+		if id := w.v.id("x"); !strings.Contains(id, "/") {
+			raw = "/t1/" + neturl.PathEscape(id) // the id as the variant spells it: the path may need escaping
+		}
 	}
 	raw += docQueries[w.v.Query%len(docQueries)]
 	url, err := jsonapi.NewURLFromRaw(w.schema, raw)
